@@ -74,6 +74,10 @@ type mutation struct {
 	field    string // model field name: the path with indices removed
 	op       tamper.Op
 	replayBy []byte // replay: the bytes delivered instead
+	// replay "altround": EVERY message the sender produced in that round (its broadcast and all
+	// its unicasts) is replaced by the corresponding message of the sender's alternative run
+	roundWide bool
+	alt       *recorded
 }
 
 func (m *mutation) text() string {
@@ -103,6 +107,17 @@ type mutHook struct {
 }
 
 func (h *mutHook) OnMessage(m *drive.Msg, _ sharing.ID) []byte {
+	if h.m.roundWide {
+		if m.Round != h.m.key.round || m.From != h.m.key.from || h.m.alt == nil {
+			return m.Payload
+		}
+		h.cached = true
+		if b, ok := h.m.alt.bytes[msgKey{m.Round, m.From, m.To}]; ok && string(b) != string(m.Payload) {
+			h.applied = true
+			return b
+		}
+		return m.Payload
+	}
 	if m.Round != h.m.key.round || m.From != h.m.key.from || m.To != h.m.key.to {
 		return m.Payload
 	}
@@ -151,7 +166,7 @@ func (h *mutHook) compute(payload []byte) (out []byte, applied bool, errText str
 
 // candidates lists the mutations of one message: every leaf with every operator that applies
 // to its kind, plus the whole-message operators.
-func candidates(a *adapter, k msgKey, rec, par *recorded, pool *tamper.Pool, rng *vh.Rng, capPer int) []*mutation {
+func candidates(a *adapter, k msgKey, rec, par *recorded, alts map[sharing.ID]*recorded, pool *tamper.Pool, rng *vh.Rng, capPer int) []*mutation {
 	payload := rec.bytes[k]
 	root, err := tamper.Parse(payload)
 	if err != nil {
@@ -293,6 +308,22 @@ func candidates(a *adapter, k msgKey, rec, par *recorded, pool *tamper.Pool, rng
 	if b, ok := par.bytes[k]; ok {
 		whole(tamper.Op{Kind: tamper.OpReplay, Src: "session:" + k.String()}, b)
 	}
+	if alt := alts[k.from]; alt != nil {
+		if b, ok := alt.bytes[k]; ok {
+			whole(tamper.Op{Kind: tamper.OpReplay, Src: "alt:" + k.String()}, b)
+		}
+		// once per (round, sender): all of the sender's messages of the round from its alternative run
+		first := true
+		for _, o := range rec.keys {
+			if o.round == k.round && o.from == k.from {
+				first = o == k
+				break
+			}
+		}
+		if first {
+			out = append(out, &mutation{proto: a.name, key: msgKey{k.round, k.from, 0}, kind: "msg", op: tamper.Op{Kind: tamper.OpReplay, Src: fmt.Sprintf("altround:r%df%d", k.round, uint64(k.from))}, roundWide: true, alt: alt})
+		}
+	}
 	return out
 }
 
@@ -312,7 +343,7 @@ type runReport struct {
 
 const runTimeout = 120 * time.Second
 
-func runWithTimeout(a *adapter, seed int64, label string, hook drive.Hook) (o *outcome, status string) {
+func runWithTimeout(a *adapter, seed int64, label map[sharing.ID]string, hook drive.Hook) (o *outcome, status string) {
 	ch := make(chan *outcome, 1)
 	var pan string
 	go func() {
@@ -338,7 +369,7 @@ func isReject(v drive.Verdict) bool { return v.Class == "reject" || v.Class == "
 func evaluate(a *adapter, seed int64, m *mutation, pool *tamper.Pool, want string) *runReport {
 	rep := &runReport{modelWant: want}
 	h := &mutHook{m: m, pool: pool}
-	o, status := runWithTimeout(a, seed, "a", h)
+	o, status := runWithTimeout(a, seed, labelsAll("a"), h)
 	add := func(clause, detail string) { rep.findings = append(rep.findings, finding{clause, detail}) }
 	if status == "timeout" {
 		add("timeout", "the run did not return within "+runTimeout.String())
@@ -433,7 +464,7 @@ func evaluate(a *adapter, seed int64, m *mutation, pool *tamper.Pool, want strin
 			rep.detected = true
 		}
 	}
-	if m.key.to != 0 {
+	if m.key.to != 0 && !m.roundWide {
 		rep.rcptRej = isReject(o.tr.Verdicts[m.key.to])
 	}
 	semNoop := false
@@ -622,6 +653,7 @@ type protoState struct {
 	a    *adapter
 	rec  *recorded
 	par  *recorded
+	alts map[sharing.ID]*recorded
 	pool *tamper.Pool
 	secs float64
 }
@@ -629,7 +661,7 @@ type protoState struct {
 func prepare(a *adapter, seed int64, res *vh.Result) *protoState {
 	st := &protoState{a: a, rec: &recorded{bytes: map[msgKey][]byte{}}, par: &recorded{bytes: map[msgKey][]byte{}}, pool: tamper.NewPool()}
 	t0 := time.Now()
-	o, status := runWithTimeout(a, seed, "a", recHook{st.rec})
+	o, status := runWithTimeout(a, seed, labelsAll("a"), recHook{st.rec})
 	st.secs = time.Since(t0).Seconds()
 	fail := func(key, detail string) *protoState {
 		res.Mismatch(vh.Mismatch{ID: a.name + "-honest", Kind: "prop", Key: a.name + "-" + key, Detail: detail, Case: "proto=" + a.name + ";honest", PropFail: true, What: "honest run of the unchanged protocol"})
@@ -662,9 +694,25 @@ func prepare(a *adapter, seed int64, res *vh.Result) *protoState {
 		o.forget()
 	}
 	// the parallel session: same keys, other randomness and session
+	st.alts = map[sharing.ID]*recorded{}
 	if !a.noParallel {
-		if o2, status := runWithTimeout(a, seed, "b", recHook{st.par}); status == "" && o2 != nil && o2.forget != nil {
+		if o2, status := runWithTimeout(a, seed, labelsAll("b"), recHook{st.par}); status == "" && o2 != nil && o2.forget != nil {
 			o2.forget()
+		}
+		// one alternative run per party: same session, only that party's randomness differs
+		for _, d := range ids {
+			if d == 0 {
+				continue
+			}
+			alt := &recorded{bytes: map[msgKey][]byte{}}
+			if o3, status := runWithTimeout(a, seed, labelsAlt(d), recHook{alt}); status == "" && o3 != nil && o3.setupErr == "" {
+				st.alts[d] = alt
+				for _, k := range alt.keys {
+					if k.from == d {
+						st.pool.Add(fmt.Sprintf("alt%d-%s", uint64(d), k.String()), alt.bytes[k])
+					}
+				}
+			}
 		}
 	}
 	for _, k := range st.rec.keys {
@@ -678,9 +726,9 @@ func prepare(a *adapter, seed int64, res *vh.Result) *protoState {
 
 // quotas: number of mutated runs per protocol and tier.
 var quota = map[string]map[string]int{
-	"quick": {"session": 90, "gennaro": 100, "hjky": 60, "redistribute": 110, "lindell22": 140, "boldyreva": 40, "boldyreva-3": 6, "dkls23": 6,
-		"canetti": 40, "dkls23-softspoken": 3, "lindell17": 4, "cggmp21": 2},
-	"thorough": {"session": 3000, "gennaro": 1500, "hjky": 800, "redistribute": 1500, "lindell22": 1500, "boldyreva": 200, "boldyreva-3": 100, "dkls23": 90,
+	"quick": {"session": 90, "gennaro": 100, "hjky": 60, "redistribute": 110, "redistribute-recover": 30, "lindell22": 120, "boldyreva": 36, "boldyreva-3": 6, "dkls23": 6,
+		"canetti": 40, "dkls23-softspoken": 3, "lindell17": 4, "cggmp21": 1},
+	"thorough": {"session": 3000, "gennaro": 1500, "hjky": 800, "redistribute": 1500, "redistribute-recover": 600, "lindell22": 1500, "boldyreva": 200, "boldyreva-3": 100, "dkls23": 90,
 		"canetti": 1000, "dkls23-softspoken": 40, "lindell17": 60, "cggmp21": 40},
 }
 
@@ -706,6 +754,9 @@ func opRank(m *mutation) int {
 	case tamper.OpDrop:
 		return 4
 	case tamper.OpReplay:
+		if m.roundWide || strings.HasPrefix(m.op.Src, "alt:") {
+			return 1
+		}
 		return 5
 	case tamper.OpMalformed:
 		return 6
@@ -781,8 +832,18 @@ func main() {
 			}
 			if m.op.Kind == tamper.OpReplay {
 				kind, src, _ := strings.Cut(m.op.Src, ":")
+				if kind == "altround" {
+					m.roundWide, m.alt = true, st.alts[m.key.from]
+				}
+				if kind == "alt" && st.alts[m.key.from] != nil {
+					for _, k := range st.alts[m.key.from].keys {
+						if k.String() == src {
+							m.replayBy = st.alts[m.key.from].bytes[k]
+						}
+					}
+				}
 				for _, r := range []*recorded{st.rec, st.par} {
-					if (kind == "session") != (r == st.par) {
+					if kind == "alt" || kind == "altround" || (kind == "session") != (r == st.par) {
 						continue
 					}
 					for _, k := range r.keys {
@@ -813,7 +874,7 @@ func main() {
 		}
 		var all []*mutation
 		for _, k := range st.rec.keys {
-			all = append(all, candidates(ad, k, st.rec, st.par, st.pool, rng, capPer)...)
+			all = append(all, candidates(ad, k, st.rec, st.par, st.alts, st.pool, rng, capPer)...)
 		}
 		// strata: (round, b|u, structural position, leaf kind, operator); members differ in
 		// sender, recipient and index
